@@ -134,7 +134,28 @@ func runC19(p *Program, r *Result) {
 		}
 		ftb := tb
 		facts := ftb.FactsAt(s.Block())
-		pe := pairedErr(s.Val)
+		// a merge that the guards in force here restrict to one incoming value is that value
+		// (the result variable of a spliced helper: its failure returns never get here)
+		cached := s.Val
+		fe := p.feasibleEdgesAt(s.Block())
+		for {
+			ph, isPhi := stripConv(cached).(*ssa.Phi)
+			if !isPhi || fe[ph.Block()] == nil {
+				break
+			}
+			only, n := -1, 0
+			for k, okE := range fe[ph.Block()] {
+				if okE {
+					only = k
+					n++
+				}
+			}
+			if n != 1 {
+				break
+			}
+			cached = ph.Edges[only]
+		}
+		pe := pairedErr(cached)
 		if pe == nil {
 			r.Unk(sub, key, r.pos(s), "stored value is not (a Phi of) the first result of constructor calls returning (identity, error): "+short(ftb.Term(s.Val).String()))
 			continue
